@@ -2,6 +2,7 @@ use crate::report::Report;
 use std::sync::Arc;
 
 pub mod c03;
+pub mod c04;
 pub mod c10;
 pub mod c12;
 pub mod c16;
@@ -19,6 +20,7 @@ pub struct Entry {
 pub fn lookup(id: &str) -> Option<Entry> {
     Some(match id {
         "C03" => Entry { id: "C03", run: c03::run, replay: c03::replay },
+        "C04" => Entry { id: "C04", run: c04::run, replay: c04::replay },
         "C10" => Entry { id: "C10", run: c10::run, replay: c10::replay },
         "C12" => Entry { id: "C12", run: c12::run, replay: c12::replay },
         "C16" => Entry { id: "C16", run: c16::run, replay: c16::replay },
